@@ -55,8 +55,8 @@ FAULT = {fl!r}
 GRID = {GRID!r}
 TASKS = {{}}
 
-def do_cb(cbid, arg):
-    rec('cb', cbid, arg, task.current_task())
+def do_cb(cbid, arg, extra):
+    rec('cb', cbid, arg + 100 * extra, task.current_task())
     spec = CBS[cbid]
     if spec[0] == 'slow':
         rec('cbs', cbid, task.current_task())
@@ -68,18 +68,26 @@ def do_cb(cbid, arg):
         raise ValueError('cb')
     elif spec[0] == 'mut':
         task.add_done_callback(task.current_task(), CBF[spec[1]], 99)
+    elif spec[0] == 'uniq':
+        task.unique(spec[1])
+    elif spec[0] == 'cancel':
+        if spec[1] in TASKS:
+            try:
+                task.cancel(TASKS[spec[1]])
+            except TypeError:
+                rec('cb-typeerror', cbid)
 
-def cb1(arg):
-    do_cb(1, arg)
+def cb1(arg, extra=0):
+    do_cb(1, arg, extra)
 
-def cb2(arg):
-    do_cb(2, arg)
+def cb2(arg, extra=0):
+    do_cb(2, arg, extra)
 
-def cb3(arg):
-    do_cb(3, arg)
+def cb3(arg, extra=0):
+    do_cb(3, arg, extra)
 
-def cb4(arg):
-    do_cb(4, arg)
+def cb4(arg, extra=0):
+    do_cb(4, arg, extra)
 
 CBF = {{1: cb1, 2: cb2, 3: cb3, 4: cb4}}
 
@@ -123,6 +131,31 @@ def runner(i):
                     rec('typeerror', i, j)
         elif k == 'uniq':
             task.unique(st[1])
+        elif k == 'addcbk':
+            if st[1] in TASKS:
+                try:
+                    task.add_done_callback(TASKS[st[1]], CBF[st[2]], st[3], extra=st[4])
+                except KeyError:
+                    rec('keyerror', i, j)
+        elif k == 'cancelme':
+            task.cancel(task.current_task())
+        elif k == 'waitempty':
+            try:
+                task.wait(set())
+            except ValueError:
+                rec('valueerror', i, j)
+        elif k == 'wait0':
+            if st[1] in TASKS:
+                task.wait({{TASKS[st[1]]}}, timeout=0)
+        elif k == 'fin':
+            try:
+                task.sleep(st[1] * GRID)
+                if FAULT == ['raise', 'step', i, j]:
+                    raise ValueError('fault')
+            finally:
+                rec('fb', i, j)
+                task.sleep(st[2] * GRID)
+                rec('fa', i, j)
         elif k == 'yield':
             task.sleep(0)
             if FAULT == ['raise', 'step', i, j]:
@@ -188,14 +221,45 @@ def ctl(target=None):
 
 def horizon(p):
     tot = sum(st[1] for pl in p["plans"] for st in pl if st[0] == "sleep")
+    tot += sum(st[1] + st[2] for pl in p["plans"] for st in pl if st[0] == "fin")
     tot += sum(v[1] for v in p["cbs"].values() if v[0] == "slow") * 2
     calls = p.get("calls") or []
     return max([l[0] for l in p["launch"]] + [c[0] + c[3] for c in calls] + [0]) + tot + 4
 
 
 # ------------------------------------------------------------------ one run on the real code
+_UHOOK = {"trace": None, "installed": False}
+
+
+def _install_unique_hook():
+    """Wrap Function.task_unique_factory once per process, BEFORE pyscript is set up, so that every function table -
+    also the one of the file-level context that done-callbacks run with - gets the traced task.unique.  The wrapper
+    calls the real closure; it only records begin / end of the call while a trace is active."""
+    if _UHOOK["installed"]:
+        return
+    from custom_components.pyscript.function import Function
+    orig_factory = Function.task_unique_factory.__func__
+
+    def factory(cls, ctx):
+        inner = orig_factory(cls, ctx)
+
+        async def task_unique(name, kill_me=False):
+            tr = _UHOOK["trace"]
+            if tr is None:
+                return await inner(name, kill_me=kill_me)
+            t = asyncio.current_task()
+            tr.append(("ub", t, f"{ctx.get_global_ctx_name()}.{name}", bool(kill_me)))
+            r = await inner(name, kill_me=kill_me)
+            tr.append(("ua", t))
+            return r
+        return task_unique
+    Function.task_unique_factory = classmethod(factory)
+    _UHOOK["installed"] = True
+
+
 def run_one(p, dry=None):
     from ha_env import run_ha
+    _install_unique_hook()
     fault = p.get("fault")
     try:
         when = None
@@ -224,6 +288,11 @@ def _fault_time(records, fault):
         if tb is None or (ta is not None and ta < tb + GRID * 0.9):
             return None
         return (round(tb + GRID / 2, 4), i)
+    if fault[1] == "fin":
+        for r in records:
+            if r[1] == "fb" and r[2] == fault[2] and r[3] == fault[3]:
+                return (round(r[0] + GRID / 2, 4), fault[2])
+        return None
     cbid = fault[2]
     for r in records:
         if r[1] == "cbs" and r[2] == cbid:
@@ -245,6 +314,10 @@ async def _body(env, p, fault, when):
 
     def cur():
         return asyncio.current_task()
+
+    def argv(args, kwargs):
+        """one number for (args, kwargs) of a done-callback: positional arg + 100 * keyword `extra`"""
+        return (args[0] if args else 0) + 100 * ((kwargs or {}).get("extra", 0) or 0)
 
     def cbid(func):
         try:
@@ -272,6 +345,14 @@ async def _body(env, p, fault, when):
     def create_task(cls, coro, ast_ctx=None):
         t = orig_create(cls, coro, ast_ctx=ast_ctx)
         trace.append(("cr", t, ast_ctx is not None))
+
+        def on_done(_t):
+            # a task that ends without run_coro ever having started was cancelled before its first segment
+            if t not in phase:
+                ent = Function.task2cb.get(t)
+                lost = [(cbid(c), argv(info[1], info[2])) for c, info in ent["cb"].items()] if ent else []
+                trace.append(("nx", t, lost))
+        t.add_done_callback(on_done)
         return t
     Function.create_task = classmethod(create_task)
 
@@ -341,9 +422,9 @@ async def _body(env, p, fault, when):
         try:
             r = orig_add(cls, task, ast_ctx, callback, *args, **kwargs)
         except KeyError:
-            trace.append(("ac", cur(), task, cbid(callback), args[0] if args else 0, "KeyError", task.done()))
+            trace.append(("ac", cur(), task, cbid(callback), argv(args, kwargs), "KeyError", task.done()))
             raise
-        trace.append(("ac", cur(), task, cbid(callback), args[0] if args else 0, "ok", task.done()))
+        trace.append(("ac", cur(), task, cbid(callback), argv(args, kwargs), "ok", task.done()))
         return r
     Function.task_add_done_callback = classmethod(task_add_done_callback)
 
@@ -375,22 +456,7 @@ async def _body(env, p, fault, when):
         return r
     Function.functions["task.cancel"] = user_task_cancel
 
-    orig_factory = Function.task_unique_factory.__func__
-    saved["task_unique_factory"] = Function.__dict__["task_unique_factory"]
-
-    def factory(cls, ctx):
-        inner = orig_factory(cls, ctx)
-
-        async def task_unique(name, kill_me=False):
-            t = cur()
-            trace.append(("ub", t, f"{ctx.get_global_ctx_name()}.{name}", bool(kill_me)))
-            r = await inner(name, kill_me=kill_me)
-            trace.append(("ua", t))
-            return r
-        return task_unique
-    Function.task_unique_factory = classmethod(factory)
-    saved["ast_unique"] = Function.ast_functions["task.unique"]
-    Function.ast_functions["task.unique"] = Function.task_unique_factory
+    _UHOOK["trace"] = trace          # task.unique is traced through the hook installed before pyscript was set up
 
     # --- done-callback invocations inside run_coro's finally -------------------------------------
     orig_call_func = AstEval.call_func
@@ -400,7 +466,7 @@ async def _body(env, p, fault, when):
         t = cur()
         if phase.get(t) == "fin" and not depth.get(t):
             depth[t] = 1
-            trace.append(("cbb", t, cbid(func), args[0] if args else 0))
+            trace.append(("cbb", t, cbid(func), argv(args, kwargs)))
             try:
                 r = await orig_call_func(self, func, func_name, *args, **kwargs)
             except asyncio.CancelledError:
@@ -453,7 +519,7 @@ async def _body(env, p, fault, when):
             known = [e[1] for e in trace if e[0] == "cr"]
             snap = {"status": {t: ("d" if t.done() else "r") for t in known},
                     "ours": set(Function.our_tasks),
-                    "cb": {t: [(cbid(c), (info[1][0] if info[1] else 0)) for c, info in v["cb"].items()]
+                    "cb": {t: [(cbid(c), argv(info[1], info[2])) for c, info in v["cb"].items()]
                            for t, v in Function.task2cb.items()},
                     "ctx": set(Function.task2context),
                     # keys are (ctx_name, name) tuples since /repo ef1f444; the trace / the model use "ctx.name"
@@ -473,8 +539,7 @@ async def _body(env, p, fault, when):
         Function.task_add_done_callback = saved["task_add_done_callback"]
         Function.functions["task.remove_done_callback"] = saved["fn_remove"]
         Function.functions["task.cancel"] = saved["fn_cancel"]
-        Function.task_unique_factory = saved["task_unique_factory"]
-        Function.ast_functions["task.unique"] = saved["ast_unique"]
+        _UHOOK["trace"] = None
         AstEval.call_func = saved["call_func"]
     out = _canon(p, trace, env.records)
     out["resp"] = responses
@@ -489,7 +554,7 @@ def _canon(p, trace, records):
     order = []
     ops, toks = [], []
     ran = {}
-    info = {"cbe_can": [], "cbe_raises": [], "withctx": {}, "keyerr_live": [], "typeerr_live": []}
+    info = {"cbe_can": [], "cbe_raises": [], "withctx": {}, "keyerr_live": [], "typeerr_live": [], "stillborn": []}
     i = 0
     last_status = {}
     while i < len(trace):
@@ -509,6 +574,10 @@ def _canon(p, trace, records):
         elif k == "st":
             ops.append(["st", n(e[1])])
             toks.append("s")
+        elif k == "nx":
+            ops.append(["nx", n(e[1])])
+            toks.append("s:dead:lost=(" + " ".join(f"{c}:{a}" for c, a in e[2]) + ")")
+            info["stillborn"].append(n(e[1]))
         elif k == "sc":
             ops.append(["sc", n(e[1])])
             toks.append("h")
@@ -601,7 +670,7 @@ def _canon(p, trace, records):
     for r in records:
         if r[1] == "cbs":
             rec2.append((r[0], "cbs", r[2], start_of.get(r[3], -1)))
-        elif r[1] in ("b", "a"):
+        elif r[1] in ("b", "a", "fb"):
             rec2.append((r[0], r[1], r[2], r[3]))
     return {"impl": "ok " + " ".join(toks), "line": line, "log": log, "records": rec2, "info": info, "wlog": wlog}
 
@@ -628,7 +697,8 @@ def _related(p, target):
     adj = {i: set() for i in range(n)}
     for i, pl in enumerate(p["plans"]):
         for st in pl:
-            if st[0] in ("create", "wait", "cancel", "addcb", "rmcb") and isinstance(st[1], int) and 0 <= st[1] < n:
+            if st[0] in ("create", "wait", "wait0", "cancel", "addcb", "addcbk", "rmcb") and isinstance(st[1], int) \
+                    and 0 <= st[1] < n:
                 adj[i].add(st[1])
                 adj[st[1]].add(i)
     rel, todo = set(), [target]
@@ -639,6 +709,10 @@ def _related(p, target):
         rel.add(x)
         todo += list(adj[x])
     uniq = {i for i, pl in enumerate(p["plans"]) if any(st[0] == "uniq" for st in pl)}
+    used = {st[2] for pl in p["plans"] for st in pl if st[0] in ("addcb", "addcbk")}
+    for cid, spec in p["cbs"].items():
+        if int(cid) in used and spec[0] in ("uniq", "cancel"):
+            return set(range(n))          # a callback that claims a name / cancels a task couples everything
     if uniq & rel:
         for u in uniq:
             todo.append(u)
@@ -716,6 +790,8 @@ def verdict(c):
     # (1) done-callbacks exactly once + result, per finished task: impl token vs the spec's
     if c.spec is not None and len(it) == len(sp):
         for a, b in zip(it, sp):
+            if a.startswith("s:dead") and a != b:
+                problems.append(f"callbacks-never-run impl={a.split('lost=')[1]}")
             if a.startswith("x:") and a != b:
                 ra, rb = a.split(":ran=")[1], b.split(":ran=")[1]
                 if ra != rb:
@@ -768,6 +844,8 @@ def verdict(c):
     if ho or ov:
         return "; ".join(problems)
     # order: root causes first
+    if info.get("stillborn"):
+        return "cancelled-before-first-segment:never-cleaned " + "; ".join(problems)
     if info["cbe_can"]:
         return "finally-aborted:cancel-inside-callback " + "; ".join(problems)
     if any(t.startswith("b:abort") for t in _tok_split(c.model)) or any(":err:" in t or t.startswith("x:err") for t in it):
@@ -792,7 +870,8 @@ def classify(c, reason):
 
 
 # ------------------------------------------------------------------ generators
-CB_KINDS = {"ok": ["ok"], "raise": ["raise"], "slow": ["slow", 2], "mut": ["mut", 4]}
+CB_KINDS = {"ok": ["ok"], "raise": ["raise"], "slow": ["slow", 2], "mut": ["mut", 4], "uniq": ["uniq", "n"],
+            "cancel": ["cancel", 0]}
 
 
 def faults_of(p):
@@ -804,7 +883,11 @@ def faults_of(p):
                 fs.append(["cancel", "step", i, j])
             elif st[0] == "yield":
                 fs.append(["raise", "step", i, j])      # zero-length suspension: no instant at which to cancel
-    used = {st[2] for pl in p["plans"] for st in pl if st[0] == "addcb"}
+            elif st[0] == "fin":
+                fs.append(["raise", "step", i, j])      # raise inside the try: the finally block still sleeps
+                fs.append(["cancel", "step", i, j])     # cancel inside the try
+                fs.append(["cancel", "fin", i, j])      # cancel inside the finally block
+    used = {st[2] for pl in p["plans"] for st in pl if st[0] in ("addcb", "addcbk")}
     for cid, spec in p["cbs"].items():
         if spec[0] == "slow" and int(cid) in used:
             fs.append(["raise", "cb", int(cid)])
@@ -876,6 +959,39 @@ def directed():
                         [["yield"], ["yield"], ["yield"]]], "cbs": cbs, "launch": [[0, "svc", 0]]})
     S.append({"plans": [[["create", 1], ["yield"], ["cancel", 1], ["sleep", 1]], [["sleep", 2]]],
               "cbs": cbs, "launch": [[0, "trig", 0]]})
+    # ---- boundary values
+    # task.cancel(): of the current task passed explicitly (no parking: it runs on to its next suspension), of a task
+    # that has finished (TypeError), twice of the same other task, of oneself twice
+    S.append({"plans": [[["create", 1], ["cancelme"], ["addcb", 0, 2, 1], ["sleep", 1], ["sleep", 1]], [["sleep", 3]]],
+              "cbs": cbs, "launch": [[0, "trig", 0]]})
+    S.append({"plans": [[["create", 1], ["wait", 1], ["cancel", 1], ["cancel", 1], ["sleep", 1]], [["yield"]]],
+              "cbs": cbs, "launch": [[0, "svc", 0]]})
+    S.append({"plans": [[["create", 1], ["yield"], ["cancel", 1], ["cancel", 1], ["wait", 1], ["sleep", 1]],
+                        [["addcb", 1, 2, 5], ["sleep", 3]]], "cbs": cbs, "launch": [[0, "trig", 0]]})
+    # a cancel that the (already busy) reaper delivers before the new task's first segment (C14-F7)
+    S.append({"plans": [[["cancelme"], ["create", 1], ["addcb", 1, 2, 7], ["cancel", 1], ["sleep", 1]], [["sleep", 2]]],
+              "cbs": cbs, "launch": [[0, "trig", 0]]})
+    # task.wait(): on an empty set (ValueError), with timeout=0 on a running and on a finished task, on a finished task
+    S.append({"plans": [[["create", 1], ["waitempty"], ["wait0", 1], ["sleep", 2], ["wait0", 1], ["wait", 1]],
+                        [["sleep", 1]]], "cbs": cbs, "launch": [[0, "trig", 0]]})
+    # done-callbacks with keyword arguments; the same callback registered again with other args / kwargs; a callback
+    # that claims a unique name; a callback that cancels another task
+    S.append({"plans": [[["create", 1], ["addcbk", 1, 2, 1, 3], ["addcb", 1, 4, 2], ["addcbk", 1, 2, 4, 0],
+                         ["addcbk", 1, 4, 2, 7], ["rmcb", 1, 3], ["wait", 1]], [["sleep", 1]]],
+              "cbs": cbs, "launch": [[0, "svc", 0]]})
+    S.append({"plans": [[["create", 1], ["create", 2], ["addcb", 1, 1, 1], ["addcb", 1, 2, 2], ["sleep", 4]],
+                        [["uniq", "n"], ["sleep", 1]], [["uniq", "n"], ["sleep", 3]]],
+              "cbs": {"1": ["uniq", "n"], "2": ["cancel", 2], "3": ["ok"], "4": ["ok"]}, "launch": [[0, "trig", 0]]})
+    # an exception as the very first statement of a run, for every entry point; a burst of runs of one trigger
+    S.append({"plans": [[["raise"]], [["raise"]], [["create", 3], ["addcb", 3, 2, 1], ["wait", 3]], [["raise"]]],
+              "cbs": cbs, "launch": [[0, "trig", 0], [0, "svc", 1], [0, "trig", 2]]})
+    S.append({"plans": [[["sleep", 1]], [["yield"], ["sleep", 1]], [["sleep", 2]], [["yield"]]],
+              "cbs": cbs, "launch": [[0, "trig", 0], [0, "trig", 1], [0, "trig", 2], [0, "trig", 3]]})
+    # try/finally around a sleep, the finally block sleeps too: raise / cancel inside the try, cancel inside the finally
+    S.append({"plans": [[["create", 1], ["addcb", 1, 2, 1], ["sleep", 5]], [["uniq", "n"], ["fin", 1, 2], ["sleep", 1]]],
+              "cbs": cbs, "launch": [[0, "trig", 0]]})
+    S.append({"plans": [[["addcb", 0, 2, 1], ["fin", 2, 1]], [["fin", 1, 1], ["sleep", 1]]],
+              "cbs": cbs, "launch": [[0, "svc", 0], [0, "trig", 1]]})
     return S
 
 
@@ -929,6 +1045,10 @@ def random_scenario(rng):
                 steps.append(["wait", rng.choice(kids)])
             elif r < 0.8:
                 steps.append(["cancel", rng.randrange(ntask)])
+            elif r < 0.84:
+                steps.append(rng.choice([["cancelme"], ["waitempty"], ["wait0", rng.randrange(ntask)],
+                                         ["fin", 1, 1], ["addcbk", rng.randrange(ntask), rng.randrange(1, 5),
+                                                         rng.randrange(1, 9), rng.randrange(0, 3)]]))
             elif r < 0.9:
                 steps.append(["uniq", rng.choice(["n", "m"])])
             else:
@@ -936,17 +1056,19 @@ def random_scenario(rng):
         if rng.random() < 0.15:
             steps.append(["raise"])
         plans[i] = steps
-    kinds = ["ok", "ok", "raise", "slow", "mut"]
+    kinds = ["ok", "ok", "raise", "slow", "mut", "uniq", "cancel"]
     cbs = {}
     for cid in range(1, 5):
         k = rng.choice(kinds if cid < 4 else ["ok", "raise", "slow"])
         cbs[str(cid)] = list(CB_KINDS[k])
+        if k == "cancel":
+            cbs[str(cid)][1] = rng.randrange(ntask)
     launch = [[rng.randrange(0, 2), rng.choice(["trig", "trig", "svc"]), i] for i in range(nroot)]
     return {"plans": plans, "cbs": cbs, "launch": launch}
 
 
 def gen_cases(rng, tier, search):
-    n = 16 if tier == "quick" else 300
+    n = 8 if tier == "quick" else 250
     if search:
         n *= 2
     cases = []
@@ -954,7 +1076,7 @@ def gen_cases(rng, tier, search):
         cases += expand(s, ("directed",))
     for _ in range(n):
         cases += expand(random_scenario(rng), ("random",))
-    for s in overlap_scenarios(rng, 6 if tier == "quick" else 120):
+    for s in overlap_scenarios(rng, 3 if tier == "quick" else 120):
         cases += expand(s, ("overlap",))
     return cases
 
